@@ -159,6 +159,14 @@ func (w *ssWorld) connect(o ssConnectOpts) bool {
 	var accepted *obfsref.SSHandshakeResult
 	var tamperedAt int64 = -1
 	endReads := 0
+	// one connection in six is quiet for 61-90 s before one of the client's
+	// writes (longer than any handshake timer)
+	quietBefore, quiet := -1, time.Duration(0)
+	if len(cPlan) > 0 && !o.tamperPacket && o.tamperReply == 0 && !o.wrongSecret && t.Draw("quiet", 6) == 5 {
+		quietBefore = t.Draw("quiet.before", len(cPlan))
+		quiet = time.Duration(61+t.Draw("quiet.s", 30)) * time.Second
+		c.Feature("client-quiet-for-over-a-minute")
+	}
 
 	maybeHangUp := func() {
 		if hangUp && !hungUp && srvWrDone && cliWrDone && srvGot == cTotal {
@@ -442,7 +450,11 @@ func (w *ssWorld) connect(o ssConnectOpts) bool {
 			}
 		})
 		var off int64
-		for _, n := range cPlan {
+		for wi, n := range cPlan {
+			if wi == quietBefore {
+				// the application has nothing to say for more than a minute
+				c.S.Sleep(quiet)
+			}
 			buf := make([]byte, n)
 			for j := range buf {
 				buf[j] = pat(0, off+int64(j))
